@@ -222,6 +222,14 @@ def gen(tier, rng):
         for st2 in ({"unlock_ok": False}, {"exit_drops_link": False}):
             out.append(Case(OP, dict(base, dev={"seed": 1, "state": dict(st, **st2), "policy": {}}, cmd="unlock",
                                      pin="1234567a", any_pin=False), stream="unlock-" + plat))
+        # a fault at every exchange of an unlock whose preconditions hold: once the device has acknowledged the
+        # unlock the command must end normally, whatever becomes of the exit that follows
+        if mode == 2 and onb == 1 and echo:
+            for k in range(0, 20):
+                for f in (("t",), ("W",), ("r",), ("w", 0x6E00)):
+                    dv = {"seed": rng.getrandbits(32), "state": st, "policy": {"faults": {str(k): list(f)}}}
+                    out.append(Case(OP, dict(base, dev=dv, cmd="unlock", pin="1234567a", any_pin=False,
+                                             no_exec=bool(k % 2)), stream="unlock-fault-" + plat))
         # changepin
         for new_pin, any_pin, no_unlock in itertools.product([None] + PINS[:8] + PINS[10:], (False, True), (False, True)):
             if mode != 2 and new_pin not in (None, "abcd1234"):
